@@ -525,12 +525,13 @@ class WinEPR:
     def draw(self, rng):
         rank = rng.randint(1, 2)
         ext = rng.sample([2, 3, 4, 5, 6, 7], rank) + [1] * (2 - rank)
-        return {"ext": ext, "rank": rank, "dos": rng.random() < 0.7, "axis": rng.choice(["hcf", "gst"])}
+        return {"ext": ext, "rank": rank, "dos": rng.random() < 0.7, "axis": rng.choice(["hcf", "gst", "gst+hcf", "gst+hsw"])}
 
     def systematic(self, rng):
-        """rank x {DOS little-endian float32, big-endian int32} x {field axis from HCF/HSW, from GST/GSI}"""
+        """rank x {DOS little-endian float32, big-endian int32} x {field axis from HCF/HSW; from GST/GSI with neither, only the
+        centre field, or only the sweep width given (an incomplete centre description falls back on the sweep description)}"""
         return [{"ext": rng.sample([2, 3, 4, 5, 6, 7], rank) + [1] * (2 - rank), "rank": rank, "dos": dos, "axis": ax}
-                for rank in (1, 2) for dos in (True, False) for ax in ("hcf", "gst")]
+                for rank in (1, 2) for dos in (True, False) for ax in (("hcf", "gst", "gst+hcf", "gst+hsw") if rank == 1 else ("hcf",))]
 
     def layout(self, c):
         x, y = c["ext"]
@@ -549,7 +550,8 @@ class WinEPR:
                       "XXUN G", "XYUN dB"]
         else:
             lines += ["GST 3400.000000", "GSI 200.000000", "JUN G", "RES %d" % x]
-        lines += ["JSD 4"] + (["HCF 3500.000000", "HSW 200.000000"] if c.get("axis", "hcf") == "hcf" or c["rank"] == 2 else []) + ["RCT 40.96", "RTC 10.24", "RRG 5.6e+003", "RMA 3.0", "MF  9.43",
+        lines += ["JSD 4"] + ({"hcf": ["HCF 3500.000000", "HSW 200.000000"], "gst": [], "gst+hcf": ["HCF 3333.000000"], "gst+hsw": ["HSW 77.000000"]}[
+                      c.get("axis", "hcf") if c["rank"] == 1 else "hcf"]) + ["RCT 40.96", "RTC 10.24", "RRG 5.6e+003", "RMA 3.0", "MF  9.43",
                   "MP  2.0e-001", "MPD 30.0", "TE  294.2"]
         return "\r\n".join(lines) + "\r\n"
 
